@@ -21,3 +21,5 @@ def _s3(ctx):
 STRUCTURAL = [_s3]
 
 FUNCTIONS = FUNCTIONS + [M + '__init__', N + 'assert_valid_input']
+
+VALIDATION = [validate_bs4]
